@@ -322,10 +322,14 @@ class Gen:
             ws = []
             if i == 0 or r.random() < 0.5: ws += self.code(depth)
             ws += self.code(CR)
+            col = 0
             if r.random() < 0.9:
-                ind = r.randrange(4); attr = 0x10 + 2 * ind if r.random() < 0.8 else r.randrange(16)
+                if r.random() < 0.8:
+                    ind = r.randrange(4); attr = 0x10 + 2 * ind; col = 4 * ind
+                else:
+                    attr = r.randrange(16)
                 ws += self.code(w_pac(base, attr))
-            ws += self.text_run(r.choice([8, 16, 28]), mid=r.random() < 0.5)
+            ws += self.text_run(min(31 - col, r.choice([8, 16, 28])), mid=r.random() < 0.5)
             lines.append((t, ws)); t += len(ws) + r.randint(3, 50)
             if r.random() < 0.1:
                 ws = self.code(EDM); lines.append((t, ws)); t += len(ws) + r.randint(3, 30)
@@ -376,7 +380,8 @@ def gen_protocol(rng, kind=None):
             lines += ls
             if rng.random() < 0.7:
                 ws = g.code(EDM); lines.append((t, ws)); t += len(ws) + rng.randint(3, 30)
-    return Stream(kind, df, rng.random() < 0.7, lines)
+    st = Stream(kind, df, rng.random() < 0.7, lines); st.dbl = dbl
+    return st
 
 
 def gen_wild(rng):
